@@ -180,9 +180,10 @@ class TaskScenario(ScenarioData):
         3. For onstart dependencies: the predecessor must be scheduled first
            (so we can derive our end from their start)
         """
-        # If task has explicit end date, it's an anchor - always ready
+        # If task has explicit end date, it's an anchor - ready at once, unless it is its own
+        # successor: the tasks of a dependency loop cannot be placed consistently
         if self.property.get("end", self.scenarioIdx):
-            return True
+            return not self._isOwnSuccessor()
 
         # Check onstart dependencies - we need predecessor scheduled to know their start
         # For ALAP with `depends X { onstart }`, this task's END depends on X's START
@@ -209,6 +210,22 @@ class TaskScenario(ScenarioData):
             return True
 
         return all(successor.get("scheduled", self.scenarioIdx) for successor in successors)
+
+    def _isOwnSuccessor(self) -> bool:
+        """Check whether following the successors of this task leads back to it (dependency loop)."""
+        seen: set[int] = set()
+        todo = list(self._getSuccessors())
+        while todo:
+            task = todo.pop()
+            if task is self.property:
+                return True
+            if id(task) in seen:
+                continue
+            seen.add(id(task))
+            task_scenario = task.data[self.scenarioIdx] if task.data else None
+            if task_scenario is not None:
+                todo.extend(task_scenario._getSuccessors())
+        return False
 
     def _getSuccessors(self) -> list[Any]:
         """
